@@ -173,6 +173,135 @@ async fn prf_body(case: MacCase, interceptor: DynStreamInterceptor) -> (Vec<Help
     (join_all(futs).await, Vec::new())
 }
 
+/// PRF evaluation with 16 lanes per record (the production vectorisation) under a coordinated attack by one helper:
+/// +d on lane `l0` and -d on lane `l1` of its multiplication message (to its left peer) and the same offsets on the
+/// share it sends when the product is revealed (to its right peer). The zero-sum pattern is what a MAC that does not
+/// bind every lane separately would miss. Returns per helper Ok(pseudonyms)/Err.
+async fn prf16_lane_attack(seed: u64, attacker: usize, l0: usize, l1: usize, honest: bool) -> Vec<HelperRes> {
+    use rand::Rng;
+    use crate::ff::Serializable;
+    let mut cfg = TestWorldConfig::default();
+    cfg.seed = seed;
+    cfg.timeout = None;
+    let hits = Arc::new(Mutex::new(0u32));
+    if !honest {
+        let hits = Arc::clone(&hits);
+        cfg.stream_interceptor = Arc::new(move |ctx: &crate::helpers::in_memory_config::InspectContext, data: &mut Vec<u8>| {
+            if let crate::helpers::in_memory_config::InspectContext::MpcMessage { source, dest, gate, .. } = ctx {
+                let ids = [crate::helpers::HelperIdentity::ONE, crate::helpers::HelperIdentity::TWO, crate::helpers::HelperIdentity::THREE];
+                let src = ids.iter().position(|i| i == source).unwrap();
+                let dst = ids.iter().position(|i| i == dest).unwrap();
+                let g = gate.as_ref();
+                let mult = g.ends_with("mult_mask_with_p_r_f_input") && dst == (attacker + 2) % 3;
+                let reveal = g.ends_with("revealz") && dst == (attacker + 1) % 3;
+                if src == attacker && (mult || reveal) && data.len() >= 32 * 16 {
+                    let d = Fp25519::from(0x1234_5678_9abc_def1_u64);
+                    for (lane, sign) in [(l0, true), (l1, false)] {
+                        let sl = &mut data[32 * lane..32 * (lane + 1)];
+                        let v = Fp25519::deserialize_infallible(generic_array::GenericArray::from_slice(sl));
+                        let v = if sign { v + d } else { v - d };
+                        let mut buf = generic_array::GenericArray::default();
+                        v.serialize(&mut buf);
+                        sl.copy_from_slice(&buf);
+                    }
+                    *hits.lock().unwrap() += 1;
+                }
+            }
+        });
+    }
+    let world = TestWorld::new_with(&cfg);
+    let mut r = VRng::new(seed ^ 0xc04a, 5);
+    let mut inputs: [Vec<Replicated<Fp25519, 16>>; 3] = Default::default();
+    {
+        let lanes: [[Replicated<Fp25519>; 3]; 16] = std::array::from_fn(|_| {
+            let x: Fp25519 = r.r#gen();
+            share_field(x, &mut r)
+        });
+        for h in 0..3 {
+            let l: [Fp25519; 16] = std::array::from_fn(|k| lanes[k][h].left());
+            let rr: [Fp25519; 16] = std::array::from_fn(|k| lanes[k][h].right());
+            inputs[h].push(Replicated::<Fp25519, 16>::new_arr(l.to_vec().try_into().unwrap(), rr.to_vec().try_into().unwrap()));
+        }
+    }
+    let ctxs = world.malicious_contexts();
+    let futs = ctxs.into_iter().zip(inputs).map(|(ctx, inp)| async move {
+        catch_fut(async move {
+            let key = gen_prf_key::<_, 1>(&ctx.narrow("prf-key"));
+            let ctx = ctx.narrow("eval").set_total_records(TotalRecords::ONE);
+            let v = ctx.validator::<Fp25519>();
+            let m_ctx = v.context();
+            let x = inp.into_iter().next().unwrap();
+            let out = eval_dy_prf::<_, 16>(m_ctx, RecordId::FIRST, &key, x).await?;
+            Ok::<_, Error>(out.iter().map(|v| u128::from(*v)).collect::<Vec<_>>())
+        })
+        .await
+        .map(|r| r.map_err(|e| format!("{e:?}")))
+    });
+    let res = join_all(futs).await;
+    // (on a correct tree validation fails before the reveal, so only the first of the two messages is ever sent)
+    if !honest && *hits.lock().unwrap() == 0 {
+        return vec![Err("attack-not-applied".into())];
+    }
+    res
+}
+
+#[test]
+fn verif_c04_cross_lane_attack() {
+    let env = vlib::env();
+    let mut rec = Recorder::new("C04", "verif_c04_cross_lane_attack");
+    let n = env.pick(9, 45);
+    for idx in 0..n {
+        if !env.mine(idx) {
+            continue;
+        }
+        let seed = env.seed.wrapping_mul(8111) + (idx / 3) as u64;
+        let attacker = idx % 3;
+        let mut r = VRng::new(env.seed ^ 0x1a9e, idx as u64);
+        let l0 = r.below(16) as usize;
+        let l1 = (l0 + 1 + r.below(15) as usize) % 16;
+        let honest = match vlib::run_paused(Duration::from_secs(60), prf16_lane_attack(seed, attacker, l0, l1, true)) {
+            Paused::Done(v) => v,
+            Paused::Quiescent => vec![],
+        };
+        let expected: Option<Vec<u128>> = match honest.as_slice() {
+            [Ok(Ok(a)), Ok(Ok(b)), Ok(Ok(c))] if a == b && b == c => Some(a.clone()),
+            _ => None,
+        };
+        rec.eval();
+        let Some(expected) = expected else {
+            rec.violation("honest 16-lane PRF evaluation failed", json!({"kind": "honest_failed", "field": "PRF16"}), json!({"case": idx, "res": format!("{honest:?}").chars().take(300).collect::<String>()}));
+            continue;
+        };
+        rec.count("honest_prf16_runs");
+        let out = vlib::run_paused(Duration::from_secs(60), prf16_lane_attack(seed, attacker, l0, l1, false));
+        rec.eval();
+        match out {
+            Paused::Quiescent => {
+                rec.count("lane_attack_detected");
+                rec.distinct(&("lane_attack", attacker, l0, l1));
+            }
+            Paused::Done(res) if res.len() == 1 => rec.inconclusive(format!("case {idx}: the cross-lane attack did not hit any message")),
+            Paused::Done(res) => {
+                let honest_ok: Vec<&Vec<u128>> = (0..3).filter(|h| *h != attacker).filter_map(|h| match &res[h] { Ok(Ok(v)) => Some(v), _ => None }).collect();
+                if honest_ok.len() < 2 {
+                    rec.count("lane_attack_detected");
+                    rec.distinct(&("lane_attack", attacker, l0, l1));
+                } else if honest_ok.iter().all(|v| **v == expected) {
+                    rec.count("lane_attack_accepted_but_values_unchanged");
+                } else {
+                    rec.violation(
+                        "a zero-sum additive attack across two lanes of one vectorised record passed MAC validation and changed the opened values",
+                        json!({"kind": "cross_lane_attack_accepted", "field": "Fp25519x16"}),
+                        json!({"case": idx, "attacker": attacker, "lanes": [l0, l1], "seed": seed}),
+                    );
+                }
+            }
+        }
+    }
+    rec.sample(json!({"attack": "+d on lane a, -d on lane b of the multiplication message and of the revealed share", "lanes": 16}));
+    rec.finish();
+}
+
 pub fn run_mac(case: &MacCase, fault: Option<Fault>) -> (Paused<(Vec<HelperRes>, Vec<u128>)>, TapState) {
     let st = Arc::new(Mutex::new(TapState { fault, ..Default::default() }));
     let tap = wl::tap(Arc::clone(&st));
